@@ -1,11 +1,14 @@
 """C20 - calling a DAG inside a DAG is equivalent to inlining it."""
+import asyncio
 from typing import Any, Dict, List, Tuple
 
 from hypothesis import strategies as st
 
-from .. import prog, progchecks as pc, richgen
+from .. import prog, progchecks as pc, richgen, sched
 from ..harness import CaseResult, Harness
 from ..prog import dec
+
+import tawazi  # noqa: E402  (after vlib.env has put the tree under test on the path)
 
 PID = "C20"
 LEVEL = "exploration"
@@ -109,13 +112,16 @@ def run_case(case: Dict[str, Any]) -> CaseResult:
     if case.get("family") == "nest-composed":
         return _nest_composed(case, res)
     P, args = case["prog"], case["args"]
-    ref_val, ref_exc, R = pc.reference(P, args)
-    if ref_exc is not None:
-        res.skipped = "reference-raises-" + type(ref_exc).__name__
-        return res
+    refs = {dbg: pc.reference(P, args, run_debug=dbg) for dbg in (False, True)}
+    for dbg in (False, True):
+        if refs[dbg][1] is not None:
+            res.skipped = "reference-raises-" + type(refs[dbg][1]).__name__
+            return res
     res.evals = 0
     sites = _walk(P)
+    b = None
     for cfg in case["configs"]:
+        ref_val, _re, R = refs[bool(cfg.get("debug"))]
         val, exc, ex, b = pc.run_config(P, args, cfg)
         res.evals += 1
         ctag = f" [cfg={ {k: v for k, v in cfg.items() if k not in ('choices', 'sleeps')} } args={args}]"
@@ -143,6 +149,29 @@ def run_case(case: Dict[str, Any]) -> CaseResult:
             res.viol("id-collision", "duplicate ids" + ctag)
         if res.violations:
             break
+    if not res.violations and b is not None and case.get("compose_outputs"):
+        # compose() on the OUTER DAG (which contains nested DAGs): with no inputs the composed DAG computes the named
+        # top-level sites exactly as the outer DAG does (all DAG parameters have defaults here)
+        Rn = refs[False][2]
+        outs = case["compose_outputs"]
+        ctag = f" [outer.compose([], {outs})]"
+        try:
+            ids_ = {s_: b.node_id(s_) for s_ in outs}
+            import warnings
+
+            with warnings.catch_warnings():
+                warnings.simplefilter("ignore")
+                cd = b.dag.compose("CMPOUT", [], [ids_[s_] for s_ in outs])
+            with sched.Exec("free"):
+                got_c = asyncio.run(cd()) if isinstance(cd, tawazi.AsyncDAG) else cd()
+            want_c = tuple(None if Rn.values.get(s_) is prog.NOTRUN else Rn.values.get(s_) for s_ in outs)
+            if prog.foreign_objects(got_c) or got_c != want_c:
+                res.viol("compose-of-outer-value", f"returned {got_c!r}, the outer DAG computes {want_c!r} for these sites" + ctag)
+        except BaseException as e:  # noqa: BLE001
+            if isinstance(e, KeyboardInterrupt):
+                raise
+            res.viol("compose-of-outer-raised", f"raised {type(e).__name__}: {str(e)[:300]}" + ctag)
+        res.cls("compose-of-a-dag-with-nested-dags")
     depth2 = "nested-2" in case.get("features", [])
     levels: Dict[str, set] = {}
     for path, s, _p in sites:
@@ -184,8 +213,13 @@ def cases(draw: Any, tier: str) -> Dict[str, Any]:
             else:
                 vals.append(prog.enc(draw(st.sampled_from([0, 1, "w", None]))))
         return {"family": "nest-composed", "prog": P, "inputs": ins, "outputs": outs, "vals": vals, "mc": draw(st.integers(1, 3))}
-    c = draw(richgen.rich_case(depth=3, max_stmts=6, flag_w=6, sub_w=8, seqop_w=1))
+    c = draw(richgen.rich_case(depth=3, max_stmts=6, flag_w=6, sub_w=8, seqop_w=1, debug_w=1))
     c["configs"] = draw(pc.configs(2, sites=prog.sites_of(c["prog"])))
+    P_ = c["prog"]
+    top = [s["site"] for s in P_["body"] if s["k"] == "call" and not P_["fns"][s["fn"]].get("debug") and not P_["fns"][s["fn"]].get("setup")
+           and s.get("unpack") is None and not P_["fns"][s["fn"]].get("unpack")]
+    if top and all(d is not None for _n, d in P_["params"]) and len(c["args"]) == 0 and "nested" in c.get("features", []):
+        c["compose_outputs"] = draw(st.lists(st.sampled_from(top), min_size=1, max_size=2, unique=True))
     return c
 
 
